@@ -5,6 +5,7 @@ import (
 	"fmt"
 	"math"
 	"reflect"
+	"strconv"
 	"strings"
 	"time"
 
@@ -555,6 +556,47 @@ func refCond(c, a, b tv) tv {
 	return tv{t, b.v, c.ok && a.ok && b.ok}
 }
 
+// flatRef: "L0 op L1 op L2 ..." grouped by the reference parser and evaluated by the reference semantics.
+func flatRef(ops []string, leaves []int) (tv, bool) {
+	text := "L0"
+	for i, op := range ops {
+		text += " " + op + " L" + strconv.Itoa(i+1)
+	}
+	n, v := ref.Parse([]byte(text))
+	if v != ref.Accept {
+		return tv{}, false
+	}
+	var ev func(n *ref.N) (tv, bool)
+	ev = func(n *ref.N) (tv, bool) {
+		switch n.K {
+		case "id":
+			k, err := strconv.Atoi(strings.TrimPrefix(n.Val, "L"))
+			if err != nil || k >= len(leaves) {
+				return tv{}, false
+			}
+			return tv{selVals[leaves[k]].Expr, leaves[k], true}, true
+		case "paren":
+			return ev(n.Kids[0])
+		case "bin":
+			a, ok1 := ev(n.Kids[0])
+			b, ok2 := ev(n.Kids[1])
+			if !ok1 || !ok2 {
+				return tv{}, false
+			}
+			switch n.Op {
+			case "&&":
+				return refAnd(a, b), true
+			case "||":
+				return refOr(a, b), true
+			case "??":
+				return refCoal(a, b), true
+			}
+		}
+		return tv{}, false
+	}
+	return ev(n)
+}
+
 func runC06(w *eng.W) {
 	W = w
 	buildSelVals()
@@ -729,6 +771,17 @@ func runC06(w *eng.W) {
 				emit("flat", SelCase{Src: "[" + selVals[c1].Expr + " ? " + selVals[b].Expr + " : " + selVals[c2].Expr + " ? " + selVals[c1].Expr + " : " + selVals[b].Expr + "]", Want: t4.v})
 				t5 := refCond(leaf(c1), refCond(leaf(c2), leaf(b), leaf(c2)), leaf(c1))
 				emit("flat", SelCase{Src: "[" + selVals[c1].Expr + " ? " + selVals[c2].Expr + " ? " + selVals[b].Expr + " : " + selVals[c2].Expr + " : " + selVals[c1].Expr + "]", Want: t5.v})
+				// every pair of && || ?? side by side without parentheses: the grouping is the reference parser's
+				for _, op1 := range []string{"&&", "||", "??"} {
+					for _, op2 := range []string{"&&", "||", "??"} {
+						if t, ok := flatRef([]string{op1, op2}, []int{c1, c2, b}); ok && t.ok {
+							emit("flat-mixed", SelCase{Src: "[(" + selVals[c1].Expr + ") " + op1 + " (" + selVals[c2].Expr + ") " + op2 + " (" + selVals[b].Expr + ")]", Want: t.v})
+						}
+						if t, ok := flatRef([]string{op1, op2, op1}, []int{c1, c2, b, c2}); ok && t.ok {
+							emit("flat-mixed", SelCase{Src: "[(" + selVals[c1].Expr + ") " + op1 + " (" + selVals[c2].Expr + ") " + op2 + " (" + selVals[b].Expr + ") " + op1 + " (" + selVals[c2].Expr + ")]", Want: t.v})
+						}
+					}
+				}
 				t3 := refOr(leaf(c1), refAnd(leaf(c2), leaf(b)))
 				emit("flat", SelCase{Src: "[" + selVals[c1].Expr + " || " + selVals[c2].Expr + " && " + selVals[b].Expr + "]", Want: t3.v})
 			}
